@@ -82,7 +82,7 @@ def worker(k, jobs, lock, results):
             else:
                 t0 = time.time()
                 try:
-                    rc, out = sh(f"{root}/verif/target/release/jbkv check {cid} quick", cwd=f"{root}/verif", env=env, timeout=2400)
+                    rc, out = sh(f"{root}/verif/target/release/jbkv check {cid} " + os.environ.get("RS_TIER", "quick"), cwd=f"{root}/verif", env=env, timeout=int(os.environ.get("RS_TIMEOUT", "2400")))
                 except subprocess.TimeoutExpired:
                     rc, out = 2, "timeout"
                 m = re.search(r"sig=(\S+)", out)
@@ -113,6 +113,9 @@ def main():
             continue
         m = json.load(open(d + "meta.json"))["detected_by"]
         r = re.findall(r"(C\d\d) quick:", m)
+        if not r and re.search(r"C\d\d thorough:", m):
+            print(f"{name}: caught by a thorough tier only, not replayed here")
+            continue
         jobs.append((name, r[0] if r else name[:3]))
     # slowest checks first
     cost = {"C06": 9, "C05": 6, "C09": 5, "C11": 3, "C08": 3}
